@@ -11,6 +11,9 @@ import PonyVerif.Props.C01
 import PonyVerif.Lemmas.TupleCmp
 import PonyVerif.Model.QTemporal
 import PonyVerif.Lemmas.Subquery
+import PonyVerif.Lemmas.QWindow
+import PonyVerif.Gen.Limit
+import PonyVerif.Py.Lemmas
 namespace PonyVerif.Props.C02
 open PonyVerif.Model.Q PonyVerif.Props.C01
 
@@ -209,5 +212,60 @@ theorem C02_full_false : ¬ C02_full := by
     the fragment: `not (e.nb if e.b else e.nb)` -/
 example : frag { attr := fun n => if n = "b" then some (.bool, false) else if n = "nb" then some (.bool, true) else none, par := fun _ => none } .pg
     (.not (.ite (.attr "b") (.attr "nb") (.attr "nb"))) = true := by decide
+
+/-! ### ROUND 8: the LIMIT / OFFSET clause of composed windows (Model/QWindow.lean) -/
+
+section Window
+open PonyVerif.Model.Limit PonyVerif.Py PonyVerif.Gen
+
+/-- **C02_window_dialects** — for every chain of windows (limit-then-slice, slice-then-limit, page of a limited query, any number
+    of levels; all bounds natural numbers or omitted), every ordered result `R` (shorter than MySQL's 2^64-1) and EVERY dialect:
+    the clause written for the combined (limit, offset) is accepted by that dialect's backend and returns exactly the Python
+    reading — the windows applied one after another to the list.  Hence all dialects return the same rows. -/
+theorem C02_window_dialects (d : WDialect) (ws : List (Option Nat × Option Nat)) (R : List α) (hR : R.length ≤ mysqlMax) :
+    clauseWindow d (limitClause d (combineAll ws)) R = some (windowAll ws R) := by
+  rw [show combineAll ws = ((combineAll ws).1, (combineAll ws).2) from rfl, clauseWindow_limitClause d _ _ R hR]
+  simp only [combineAll, windowAll]
+  rw [window_foldl]; rfl
+
+theorem C02_window_agree (d1 d2 : WDialect) (ws : List (Option Nat × Option Nat)) (R : List α) (hR : R.length ≤ mysqlMax) :
+    clauseWindow d1 (limitClause d1 (combineAll ws)) R = clauseWindow d2 (limitClause d2 (combineAll ws)) R := by
+  rw [C02_window_dialects d1 ws R hR, C02_window_dialects d2 ws R hR]
+
+/-- a NEGATIVE limit (what `limit - offset2` without the clamp at 0 writes: `q.limit(3)` iterated by a query sliced `[5:7]` gives
+    `LIMIT -2 OFFSET 5`) does not mean the same thing everywhere: SQLite returns every row from the offset, PostgreSQL and MySQL
+    reject the statement; the Python window is empty.  So the numbers must be non-negative or the dialect's own "unbounded". -/
+theorem C02_negative_limit_witness :
+    let R := [1, 2, 3, 4, 5, 6, 7, 8, 9, 10]
+    windowAll [(some 3, none), (some 2, some 5)] R = [] ∧
+    clauseWindow .sqlite (.limit (some (-2)) (some 5)) R = some [6, 7, 8, 9, 10] ∧
+    clauseWindow .pg (.limit (some (-2)) (some 5)) R = none ∧
+    clauseWindow .mysql (.limit (some (-2)) (some 5)) R = none ∧
+    limitClause .sqlite (combineAll [(some 3, none), (some 2, some 5)]) = .limit (some 0) none := by
+  refine ⟨by decide, by decide, by decide, by decide, by decide⟩
+
+/-- Oracle's statement must restrict a zero limit too: without any ROWNUM wrapper (what OraBuilder.SELECT wrote for `LIMIT 0`
+    before the proposed repair) every row comes back -/
+theorem C02_oracle_zero_limit_witness :
+    clauseWindow .oracle (limitClause .oracle (some 0, none)) [1, 2, 3] = some [] ∧
+    clauseWindow .oracle .absent [1, 2, 3] = some [1, 2, 3] := by
+  refine ⟨by decide, by decide⟩
+
+/-- encoding of an optional natural number as a Python value -/
+def encN : Option Nat → PyVal
+  | none => .none
+  | some n => .int n
+
+/-- **C02_bridge_combine** (source tie; `Gen.combineLimitAndOffset` is regenerated from /repo on every run) — on natural-number or
+    omitted bounds the REAL combine_limit_and_offset returns the pair `combineT` computes: natural numbers or None, never a
+    negative limit. -/
+theorem C02_bridge_combine (l o l2 o2 : Option Nat) :
+    combineLimitAndOffset (encN l) (encN o) (encN l2) (encN o2)
+      = .ok (.list [encN (combineT l o l2 o2).1, encN (combineT l o l2 o2).2]) := by
+  cases l <;> cases o <;> cases l2 <;> cases o2 <;>
+    simp [combineLimitAndOffset, combineT, encN, bind, Except.bind, pure, Except.pure] <;>
+    (repeat' split) <;> (try simp_all) <;> (try omega)
+
+end Window
 
 end PonyVerif.Props.C02
